@@ -244,7 +244,7 @@ pub fn checks() -> Vec<CheckDef> {
             "random",
             "random 64-bit triples (mixed widths), same oracle as the lattice check",
             &[],
-            (200_000, 10_000_000),
+            (200_000, 100_000_000),
             random_strategy,
             oracle,
         ),
@@ -252,7 +252,7 @@ pub fn checks() -> Vec<CheckDef> {
             "boundary-payments",
             "generated (initial balances lattice/random, boundary amount selector resolved against them, probe amount among {i64::MIN, i64::MIN+1, i64::MAX, -1, 0, random}); oracle: start succeeds <=> exact integer result in range; the merchant accepts the honest boundary payment (scalar encoding consistent on both sides); allow_payment called with any decodable amount returns without panicking and accepts only the agreed amount; distinct by case",
             &["probe/i64::MIN"],
-            (112, 800),
+            (112, 4000),
             pay_strategy,
             pay_oracle,
         ),
